@@ -297,7 +297,7 @@ def c03_r1(ctx):
     ctx.inst('NextStrategy::index', {'table': {k: sorted(v) for k, v in table.items()}})
     exp = {'OnlyOne': lambda v: v == '0_usize', 'All': lambda v: v == '0_usize',
            'Random': lambda v: 'generate' in v and 'tls_rng' in v or 'Rng::generate' in v,
-           'GroupBy': lambda v: 'message' in v and ('call' in v.lower() or 'Fn' in v)}
+           'GroupBy': lambda v: ('arg%d' % fn.argc) in v and ('call' in v.lower() or 'Fn' in v)}    # keyer(<the element parameter>)
     for var, pred in exp.items():
         vals = table.get(var)
         if not vals:
@@ -358,7 +358,7 @@ def batcher_rule(ctx, triggers=False):
     for bi, t in pushes:
         recv = render(strip(sym.operand(t['args'][0])))
         val = render(strip(sym.operand(t['args'][1])))
-        if recv != 'self.buffer' or val != 'message':
+        if recv != 'self.buffer' or val != 'arg%d' % enq.argc:      # the element parameter, by position
             ctx.viol('%s|push-target' % enq.path, t['at'], 'Batcher::enqueue pushes `%s` into `%s`' % (val, recv), None)
     for f in (enq, fl, en):
         s2 = q.sym(facts, f)
